@@ -105,8 +105,10 @@ def compare(ctx: Ctx, d: dict, d2: dict, L: bg.Lift, r: dict, r2: dict):
             x = have_rows[k]
             if any((y['mutator'], y['mseq']) == (x['mutator'], x['mseq']) for y in rows2 if not L.alt_touches(int(y['mut_position']), len(y['ref'])) and L.a2r(int(y['mut_position'])) == k[-1]):
                 continue    # reported above as row_columns
-            if x['mutator'] == 'custom' and (x['vcf_alias'], int(x['mut_position']), '?', x['new']) in {(a, p, '?', n) for a, p, r_, n in L.unrepresentable}:
-                continue    # e.g. the anchor base of the record is deleted by the background: D' cannot carry this record
+            if x['mutator'] == 'custom' and not L.ref_touches(int(x['mut_position']), len(x['ref'])) and \
+                    (x['vcf_alias'], int(x['mut_position']), '?', x['new']) in {(a, p, '?', n) for a, p, r_, n in L.unrepresentable}:
+                continue    # e.g. the anchor base of the record is deleted by the background: D' cannot carry this record (a record that
+                            # itself touches a shift is not excused: it must be dropped)
             q = L.r2a(int(x['mut_position']))
             touching = q is None or L.alt_touches(q, len(x['ref']))
             viol('row_not_dropped' if touching else 'row_extra',
@@ -142,20 +144,23 @@ def single_base_on_insertion_point(c: dict) -> bool:
 MATCHERS = {'single_base_on_insertion_point': single_base_on_insertion_point}
 
 
-def make_designs(ctx: Ctx, n: int):
+def make_designs(ctx: Ctx, n: int, focus_over: dict | None = None):
     out = []
     tries = 0
     while len(out) < n and tries < 20 * n:
         tries += 1
         focus = {'p_bg': 1.0, 'p_mask': 0.25, 'allow_junction_pam': False, 'p_gtf': 0.85, 'p_custom': 0.5, 'p_pam': 0.6,
                  'custom_kinds': ['snv', 'mnv', 'ins', 'del', 'delins_u'], 'bg_kinds': ['snv', 'snv', 'ins', 'ins', 'del', 'del', 'mnv'],
-                 'bg_upstream': ctx.rng.random() < 0.7, 'p_pam_edge': 0.3, 'n_pam': [1, 2, 3, 4]}
+                 'bg_upstream': ctx.rng.random() < 0.7, 'p_pam_edge': 0.3, 'n_pam': [1, 2, 3, 4], 'bg_on_custom': 0.4}
+        focus.update(focus_over or {})
         d = gen.gen_sge(ctx.rng, focus)
         if not d.get('bg'):
             continue
         lifted = bg.lift_design(d)
         if lifted is None:
             continue
+        if ctx.rng.random() < 0.5:      # records of the background VCF in any order (a plain-text VCF is read in file order)
+            ctx.rng.shuffle(d['bg'])
         out.append((d, lifted[0], lifted[1]))
     return out
 
@@ -173,13 +178,13 @@ def files(ctx: Ctx):
     rowcheck.model_rows(ctx, results, 'rows under background variants')
 
 
-def background_stage(ctx: Ctx, n: int, accept, shuffle_bg: bool = False) -> None:
+def background_stage(ctx: Ctx, n: int, accept, shuffle_bg: bool = False, focus_over: dict | None = None) -> None:
     """For the checks of other properties (C01, C05, C08): the same metamorphic relation on n designs with background variants,
     reporting under the caller's property the violations whose kind/message `accept` selects."""
     sub = Ctx('C06', ctx.tier, ctx.seed, None)
     sub.rng = ctx.rng
     sub.known, sub.matchers = [], {}
-    triples = make_designs(sub, n)
+    triples = make_designs(sub, n, focus_over)
     if shuffle_bg:      # records of the background VCF in any order (a plain-text VCF is read in file order)
         for d, d2, L in triples:
             ctx.rng.shuffle(d['bg'])
@@ -190,7 +195,8 @@ def background_stage(ctx: Ctx, n: int, accept, shuffle_bg: bool = False) -> None
     ctx.count('background_pairs', len(triples))
     for v in sub.violations:
         kind = v['case'].get('kind', '')
-        if kind != 'row_not_dropped' and accept(kind, v['what']):
+        # a single-base generated mutation kept on an insertion point is C06's recorded finding; custom records there are dropped by the tool
+        if (kind != 'row_not_dropped' or v['case'].get('mutator') == 'custom') and accept(kind, v['what']):
             v['case']['via'] = 'background_pair'
             ctx.violation('spec_violation', 'with background variants - ' + v['what'], v['case'])
 
@@ -203,7 +209,8 @@ def replay_background(ctx: Ctx, case: dict, accept) -> bool:
     sub.known, sub.matchers = [], {}
     _, r, r2 = run_pair((d, lifted[0]))
     compare(sub, d, lifted[0], lifted[1], r, r2)
-    return any(accept(x['case'].get('kind', ''), x['what']) and x['case'].get('kind') != 'row_not_dropped' for x in sub.violations)
+    return any(accept(x['case'].get('kind', ''), x['what']) and (x['case'].get('kind') != 'row_not_dropped' or x['case'].get('mutator') == 'custom')
+               for x in sub.violations)
 
 
 def run(ctx: Ctx):
